@@ -69,7 +69,12 @@ class HistogramND(HistogramBase):
             )
 
         # Missed values
-        self._missed = np.array(missed, dtype=self.dtype).reshape(1)
+        missed_array = np.asarray(missed).reshape(1)
+        if self.dtype.kind in "iu" and np.isnan(missed_array.astype(float)).any():
+            # An "unknown" (NaN) marker cannot be stored in an integer array (same as in 1D)
+            self._missed = missed_array.astype(float)
+        else:
+            self._missed = missed_array.astype(self.dtype)
 
     @property
     def bins(self) -> List[np.ndarray]:
@@ -527,11 +532,11 @@ class HistogramND(HistogramBase):
         for i in range(self.ndim):
             if not np.allclose(other.bins[i], self.bins[i]):
                 return False
-        if not np.allclose(other.errors2, self.errors2):
+        if not np.allclose(other.errors2, self.errors2, equal_nan=True):
             return False
-        if not np.allclose(other.frequencies, self.frequencies):
+        if not np.allclose(other.frequencies, self.frequencies, equal_nan=True):
             return False
-        if not other.missed == self.missed:
+        if not np.allclose(other.missed, self.missed, equal_nan=True):
             return False
         if not other.name == self.name:
             return False
